@@ -41,6 +41,14 @@ def R():
     return registry()
 
 
+_IN = [("WORD", "IN")]
+_CMP = [("OP", None)]
+PREFIX = {"in": _IN, "not-in": _IN, "negated-in": _IN, "in-aliased-inner": _IN, "where-in-inside-and": _IN, "select-in-aliased-inner": _IN,
+          "comparison": _CMP, "comparison-aliased-inner": _CMP, "from": [("WORD", "FROM"), ("PUNCT", ",")], "nested-from-from": [("WORD", "FROM")],
+          "join": [("WORD", "JOIN")], "join-left-aliased": [("WORD", "JOIN")], "select-item": [("PUNCT", ","), ("WORD", "SELECT")],
+          "select-item-aliased": [("PUNCT", ","), ("WORD", "SELECT")], "exists-like-function": [("PUNCT", "(")]}
+
+
 def build_inner(Q, feats, depth=0):
     """Inner query with the given features."""
     r = R()
@@ -286,9 +294,18 @@ def run_case(case, mon):
     if i >= 0:
         # the position must not add an alias of its own where none is defined
         after = to[i + len(needle)] if i + len(needle) < len(to) else None
-        if not alias and wrap is True and after is not None and after[0] == "IDENT" and after[1] in ("emb", "sq0", "ia"):
+        if not alias and wrap is True and after is not None and (after[0] == "IDENT" or after == ("WORD", "AS")):
             mon.violation("%s:alias-leak-after-subquery:%s" % (pos, fam), "an alias follows the subquery where the position defines none: %r" % s_outer[:240])
             return
+        # the bracketed query stands directly at its position: nothing is wrapped around it
+        before = to[i - 1] if i > 0 else None
+        want_before = PREFIX.get(pos)
+        if want_before is not None and wrap is True:
+            mon.count("embedding_prefixes_checked")
+            if before is None or not any((before[0] == k_ and (v_ is None or before[1] == v_)) for k_, v_ in want_before):
+                mon.violation("%s:wrapped-in-something-else:%s" % (pos, fam), "the subquery does not stand directly at its position (token before it: %r): %r" % (
+                    before, s_outer[:260]))
+                return
         mon.count("containments_confirmed")
         if nontrivial:
             mon.nontrivial(case)
